@@ -54,6 +54,25 @@ func sfuScenario(r *hutil.Rng, i int, stream string) (atrun.Scenario, Meta) {
 		b.intVal(r, 999)
 	}
 	where := b.sb.String()
+	// ORDER BY a non-key column (+ key as tie-break) with LIMIT [OFFSET]: the rows handed out are a strict, order
+	// dependent subset of the rows matching WHERE
+	var ordcol string
+	for c := range t.cols {
+		if !t.isPK(c) && t.cols[c].Kind == "int" {
+			ordcol = t.cols[c].Name
+		}
+	}
+	if ordcol != "" && r.Chance(2, 5) {
+		where += " ORDER BY " + ordcol
+		if r.Chance(1, 2) {
+			where += " DESC"
+		}
+		where += ", " + strings.Join(t.pkNames(), ", ") + " LIMIT " + strconv.Itoa(1+r.Intn(2))
+		if r.Chance(1, 3) {
+			where += " OFFSET 1"
+		}
+		meta.Extra["ordered"] = "1"
+	}
 	explicit := r.Chance(1, 2)
 	conn := ""
 	var body []atrun.Step
@@ -62,7 +81,7 @@ func sfuScenario(r *hutil.Rng, i int, stream string) (atrun.Scenario, Meta) {
 		body = append(body, atrun.Step{Op: "tx_begin", Conn: conn})
 	}
 	sm := StmtMeta{Kind: "sfu", Args: b.args, Expect: "any", Conn: conn}
-	if explicit && r.Chance(1, 2) {
+	if explicit && meta.Extra["ordered"] == "" && r.Chance(1, 2) {
 		// the local transaction first writes exactly the rows it then reads with FOR UPDATE
 		var nonpk string
 		for c := range t.cols {
@@ -75,8 +94,16 @@ func sfuScenario(r *hutil.Rng, i int, stream string) (atrun.Scenario, Meta) {
 	}
 	sm.MatchPath = fmt.Sprintf("%d.%d", len(steps), len(body))
 	body = append(body, atrun.Step{Op: "query", Via: "bare", NoCtx: true, SQL: "SELECT " + strings.Join(t.pkNames(), ", ") + " FROM " + t.name + " WHERE " + where, Args: b.args})
+	if explicit {
+		meta.Extra["locks_pre"] = fmt.Sprintf("%d.%d", len(steps), len(body))
+		body = append(body, atrun.Step{Op: "db_locks"})
+	}
 	sm.Path = fmt.Sprintf("%d.%d", len(steps), len(body))
 	body = append(body, atrun.Step{Op: "query", Conn: conn, SQL: "SELECT * FROM " + t.name + " WHERE " + where + " FOR UPDATE", Args: b.args})
+	if explicit {
+		meta.Extra["locks_post"] = fmt.Sprintf("%d.%d", len(steps), len(body))
+		body = append(body, atrun.Step{Op: "db_locks"})
+	}
 	if explicit {
 		body = append(body, atrun.Step{Op: "tx_commit", Conn: conn}, atrun.Step{Op: "conn_close", Conn: conn})
 	}
